@@ -28,6 +28,17 @@ type term struct {
 	dupS int
 }
 
+// drawScalar: boundary-biased scalar, or (a third of the time) one steered at the endomorphism split that the
+// single-term and double-scalar paths run on their scalars (extreme halves, all-ones quotient limb with the rounding
+// bit set, short halves) - "every combination of scalars" includes the ones the split finds hard.
+func drawScalar(t *rapid.T, label string) *big.Int {
+	if rapid.IntRange(0, 2).Draw(t, label+"_glv") == 0 {
+		s, _ := gen.GLVScalar(t, label+"_g")
+		return s
+	}
+	return gen.Int256(t, ref.N, label)
+}
+
 func propMulti(t *rapid.T) {
 	n := gen.Sampled([]int{0, 1, 2, 2, 3, 3, 4, 5, 6, 8, 12}).Draw(t, "len")
 	if rapid.IntRange(0, 40).Draw(t, "big") == 0 {
@@ -50,9 +61,9 @@ func propMulti(t *rapid.T) {
 		}
 		switch how {
 		case "fresh":
-			tm.s, tm.p = gen.Int256(t, ref.N, fmt.Sprintf("s%d", i)), gen.Point(t, fmt.Sprintf("p%d", i)).P
+			tm.s, tm.p = drawScalar(t, fmt.Sprintf("s%d", i)), gen.Point(t, fmt.Sprintf("p%d", i)).P
 		case "same-point":
-			tm.s, tm.p = gen.Int256(t, ref.N, fmt.Sprintf("s%d", i)), terms[j].p
+			tm.s, tm.p = drawScalar(t, fmt.Sprintf("s%d", i)), terms[j].p
 		case "neg-point":
 			tm.s, tm.p = terms[j].s, terms[j].p.Neg() // s*P + s*(-P) = O
 		case "same-point-neg-scalar":
@@ -68,7 +79,7 @@ func propMulti(t *rapid.T) {
 		case "zero-scalar":
 			tm.s, tm.p = big.NewInt(0), gen.Point(t, fmt.Sprintf("p%d", i)).P
 		case "identity-point":
-			tm.s, tm.p = gen.Int256(t, ref.N, fmt.Sprintf("s%d", i)), ref.Infinity()
+			tm.s, tm.p = drawScalar(t, fmt.Sprintf("s%d", i)), ref.Infinity()
 		case "double-of-prev":
 			tm.s, tm.p = terms[j].s, terms[j].p.Double()
 		}
@@ -156,7 +167,7 @@ func propMismatch(t *rapid.T) {
 	scalars := make([]*secp256k1.Scalar, ns)
 	points := make([]*secp256k1.Point, np)
 	for i := range scalars {
-		scalars[i] = lib.Sc(gen.Int256(t, ref.N, "s"))
+		scalars[i] = lib.Sc(drawScalar(t, "s"))
 	}
 	for i := range points {
 		points[i] = lib.Pt(gen.Point(t, "p").P)
@@ -190,8 +201,8 @@ func propMismatch(t *rapid.T) {
 func TestC16_Mismatch(t *testing.T) { rapid.Check(t, propMismatch) }
 
 func propDouble(t *rapid.T) {
-	u1 := gen.Int256(t, ref.N, "u1")
-	u2 := gen.Int256(t, ref.N, "u2")
+	u1 := drawScalar(t, "u1")
+	u2 := drawScalar(t, "u2")
 	pc := gen.Point(t, "P")
 	p := pc.P
 	rel := gen.Sampled([]string{"independent", "independent", "u2P=-u1G", "u2P=u1G", "P=G", "P=-G", "P=O", "u1=0", "u2=0", "both0", "u1=-u2,P=G", "exceptional-window", "exceptional-window"}).Draw(t, "rel")
@@ -256,7 +267,7 @@ func propDouble(t *rapid.T) {
 	// (state keyed on part of a representation would take it for P)
 	if !alias && !p.Inf {
 		if g, q, ok := sibling(p, rapid.Bool().Draw(t, "sib-root")); ok {
-			v1, v2 := gen.Int256(t, ref.N, "v1"), gen.Int256(t, ref.N, "v2")
+			v1, v2 := drawScalar(t, "v1"), drawScalar(t, "v2")
 			got := secp256k1.NewIdentityPoint().DoubleScalarMultBasepointVartime(lib.Sc(v1), lib.Sc(v2), g)
 			if want2 := ref.BaseMul(v1).Add(q.Mul(v2)); !bytes.Equal(got.UncompressedBytes(), want2.Uncompressed()) {
 				t.Fatalf("DoubleScalarMultBasepointVartime(%x,%x,Q) right after a call on P=%v, Q=%v given as (x(P), y(P), Z'): got %x want %v", v1, v2, p, q, got.UncompressedBytes(), want2)
@@ -346,7 +357,7 @@ func longCase(t *rapid.T, sub string, n int) {
 			s = new(big.Int) // zero scalar
 			special++
 		case 1:
-			s = gen.Int256(t, ref.N, fmt.Sprintf("s%d", i))
+			s = drawScalar(t, fmt.Sprintf("s%d", i))
 		default:
 			s = new(big.Int).SetUint64(rapid.Uint64().Draw(t, fmt.Sprintf("s%d", i)))
 			s.Mul(s, s).Mul(s, s).Mod(s, ref.N) // spread over 256 bits cheaply
